@@ -413,6 +413,13 @@ def run(ctx):
     cs = structural_cases(ctx) + malformed_cases()
     sx = [bridge.to_sx(e) for e in cs]
     answers = ctx.driver.call("ext", [[s] for s in sx])
+    # extraction cross-check: a sample of the driver's answers re-evaluated inside Coq by vm_compute
+    import core
+    core.coq_crosscheck(ctx, ID, "From FA.Base Require Import PyAst Value Traverse.\nFrom FA.Model Require Import ExtCalls.",
+                        core.xcheck_sample([e for e in cs if has_method_call(e)] + cs, 
+                                           [a for e, a in zip(cs, answers) if has_method_call(e)] + answers,
+                                           lambda e: "ext %s" % bridge.to_coq(e),
+                                           lambda a: bridge.sx_to_coq(bridge.parse_sx(a[3:])) if a.startswith("OK ") else None))
     for e, ans in zip(cs, answers):
         if has_method_call(e):
             ctx.distinct.add(dump(e))
